@@ -23,6 +23,7 @@ import (
 	"github.com/Fantom-foundation/lachesis-base/kvdb/memorydb"
 	"github.com/Fantom-foundation/lachesis-base/lachesis"
 	"github.com/Fantom-foundation/lachesis-base/utils/adapters"
+	"github.com/Fantom-foundation/lachesis-base/utils/cachescale"
 	"github.com/Fantom-foundation/lachesis-base/vecfc"
 )
 
@@ -43,6 +44,11 @@ type Scn struct {
 	Ws   []uint32
 	Seal uint32 // 0 = never; else the application seals every epoch at this frame
 	Pol  int    // validators of the next epoch: 0 unchanged, 1 weights mutated, 2 last validator in canonical order removed
+	// ApplyFrom: 0 = BlockCallbacks.ApplyEvent installed for every block; k in 1..8 = nil for the first k
+	// blocks of the run, installed afterwards; 9 = never installed
+	ApplyFrom int
+	// CfgV: cache configuration of abft.Store and vecfc.Index: 0 lite, 1 all sizes 0, 2 all sizes 1, 3 default
+	CfgV int
 	Evs  []Ev
 
 	vcache map[uint32][2][]uint32
@@ -91,9 +97,10 @@ func (s *Scn) ValsAt(epoch uint32) ([]uint32, []uint32) {
 	return nv, nw
 }
 
-// Header tokens: salt seal nv id1 w1 ... ; ops: e id cr seq frame parents...
+// Header tokens: salt sealcode nv id1 w1 ... ; ops: e id cr seq frame parents... | n
+// sealcode = seal + 100*policy + 1000*applyFrom + 10000*cacheConfig
 func (s *Scn) Tokens(extraHeader []string) []string {
-	t := []string{u64(s.Salt), strconv.Itoa(int(s.Seal) + 100*s.Pol), strconv.Itoa(len(s.VIDs))}
+	t := []string{u64(s.Salt), strconv.Itoa(int(s.Seal) + 100*s.Pol + 1000*s.ApplyFrom + 10000*s.CfgV), strconv.Itoa(len(s.VIDs))}
 	for i := range s.VIDs {
 		t = append(t, strconv.Itoa(int(s.VIDs[i])), strconv.Itoa(int(s.Ws[i])))
 	}
@@ -138,7 +145,9 @@ func Parse(tok []string) (*Scn, []string, error) {
 		return nil, nil, err
 	}
 	s.Seal = uint32(seal % 100)
-	s.Pol = seal / 100
+	s.Pol = (seal / 100) % 10
+	s.ApplyFrom = (seal / 1000) % 10
+	s.CfgV = (seal / 10000) % 10
 	nv, err := strconv.Atoi(h[2])
 	if err != nil || len(h) < 3+2*nv {
 		return nil, nil, fmt.Errorf("bad header")
@@ -190,6 +199,8 @@ type Blk struct {
 	Atropos  hash.Event
 	Cheaters []uint32
 	Sealed   bool
+	Applied  bool         // ApplyEvent was installed for this block
+	Deliv    []hash.Event // events passed to ApplyEvent
 }
 
 type Inst struct {
@@ -203,30 +214,62 @@ type Inst struct {
 	Pol    int
 	CurV   []uint32
 	CurW   []uint32
+	ApplyFrom int
+}
+
+func storeCfg(v int) abft.StoreConfig {
+	switch v {
+	case 1:
+		return abft.StoreConfig{Cache: abft.StoreCacheConfig{RootsNum: 0, RootsFrames: 0}}
+	case 2:
+		return abft.StoreConfig{Cache: abft.StoreCacheConfig{RootsNum: 1, RootsFrames: 1}}
+	case 3:
+		return abft.DefaultStoreConfig(cachescale.Identity)
+	}
+	return abft.LiteStoreConfig()
+}
+
+func indexCfg(v int) vecfc.IndexConfig {
+	switch v {
+	case 1:
+		return vecfc.IndexConfig{Caches: vecfc.IndexCacheConfig{ForklessCausePairs: 0, HighestBeforeSeqSize: 0, LowestAfterSeqSize: 0}}
+	case 2:
+		return vecfc.IndexConfig{Caches: vecfc.IndexCacheConfig{ForklessCausePairs: 1, HighestBeforeSeqSize: 1, LowestAfterSeqSize: 1}}
+	case 3:
+		return vecfc.DefaultConfig(cachescale.Identity)
+	}
+	return vecfc.LiteConfig()
 }
 
 func (in *Inst) Epoch() uint32 { return uint32(in.Store.GetEpoch()) }
 
 func NewInst(s *Scn) *Inst {
-	in := &Inst{Input: &EvStore{db: map[hash.Event]dag.Event{}}, Seal: s.Seal, Pol: s.Pol, CurV: s.VIDs, CurW: s.Ws}
+	in := &Inst{Input: &EvStore{db: map[hash.Event]dag.Event{}}, Seal: s.Seal, Pol: s.Pol, CurV: s.VIDs, CurW: s.Ws, ApplyFrom: s.ApplyFrom}
 	b := pos.NewBuilder()
 	for i := range s.VIDs {
 		b.Set(idx.ValidatorID(s.VIDs[i]), pos.Weight(s.Ws[i]))
 	}
 	in.Vals = b.Build()
 	crit := func(err error) { in.Crit = append(in.Crit, err.Error()) }
-	in.Store = abft.NewStore(memorydb.New(), func(idx.Epoch) kvdb.Store { return memorydb.New() }, crit, abft.LiteStoreConfig())
+	in.Store = abft.NewStore(memorydb.New(), func(idx.Epoch) kvdb.Store { return memorydb.New() }, crit, storeCfg(s.CfgV))
 	if err := in.Store.ApplyGenesis(&abft.Genesis{Epoch: 1, Validators: in.Vals}); err != nil {
 		panic(err)
 	}
-	in.L = abft.NewIndexedLachesis(in.Store, in.Input, &adapters.VectorToDagIndexer{Index: vecfc.NewIndex(crit, vecfc.LiteConfig())}, crit, abft.LiteConfig())
+	in.L = abft.NewIndexedLachesis(in.Store, in.Input, &adapters.VectorToDagIndexer{Index: vecfc.NewIndex(crit, indexCfg(s.CfgV))}, crit, abft.LiteConfig())
 	err := in.L.Bootstrap(lachesis.ConsensusCallbacks{
 		BeginBlock: func(block *lachesis.Block) lachesis.BlockCallbacks {
 			bl := Blk{Epoch: uint32(in.Store.GetEpoch()), Frame: uint32(in.Store.GetLastDecidedFrame()) + 1, Atropos: block.Atropos}
 			for _, c := range block.Cheaters {
 				bl.Cheaters = append(bl.Cheaters, uint32(c))
 			}
+			nblk := len(in.Blocks) // blocks of the whole run so far
+			var apply lachesis.ApplyEventFn
+			if in.ApplyFrom != 9 && nblk >= in.ApplyFrom {
+				bl.Applied = true
+				apply = func(e dag.Event) { bl.Deliv = append(bl.Deliv, e.ID()) }
+			}
 			return lachesis.BlockCallbacks{
+				ApplyEvent: apply,
 				EndBlock: func() *pos.Validators {
 					var res *pos.Validators
 					if in.Seal != 0 && bl.Frame == in.Seal {
@@ -337,6 +380,25 @@ func (in *Inst) BlockTokens(name map[hash.Event]int) []string {
 		for _, c := range b.Cheaters {
 			t = append(t, strconv.Itoa(int(c)))
 		}
+		// delivered events (sorted scenario ids), "dn" when ApplyEvent was nil for this block
+		if !b.Applied {
+			t = append(t, "dn")
+		} else {
+			ds := make([]int, 0, len(b.Deliv))
+			for _, h := range b.Deliv {
+				if n, ok := name[h]; ok {
+					ds = append(ds, n)
+				} else {
+					ds = append(ds, -1)
+				}
+			}
+			sort.Ints(ds)
+			parts := make([]string, len(ds))
+			for i, d := range ds {
+				parts[i] = strconv.Itoa(d)
+			}
+			t = append(t, "d"+strings.Join(parts, ","))
+		}
 	}
 	t = append(t, "L", strconv.Itoa(int(in.Store.GetEpoch())), strconv.Itoa(int(in.Store.GetLastDecidedFrame())))
 	return t
@@ -363,7 +425,25 @@ type GenCfg struct {
 // WeightShapes returns the genesis weights for n validators by shape number.
 func WeightShapes(r *rand.Rand, n int, shape int) []uint32 {
 	w := make([]uint32, n)
-	switch shape % 7 {
+	switch shape {
+	case 7: // one validator holds exactly 1/3 or 2/3 of the weight, or one unit more / less
+		k := uint32(n + r.Intn(8))
+		if n == 1 {
+			w[0] = 3 * k
+			break
+		}
+		big := []uint32{k - 1, k, k + 1, 2*k - 1, 2 * k, 2*k + 1}[r.Intn(6)]
+		spread(r, w, 3*k-big, 0)
+		w[0] = big
+		r.Shuffle(n, func(i, j int) { w[i], w[j] = w[j], w[i] })
+	case 8: // a validator (the designated forker) with weight c where the total is 3c+1
+		if n == 1 {
+			w[0] = 1
+			break
+		}
+		c := uint32(n/2 + 1 + r.Intn(6))
+		spread(r, w, 2*c+1, 0)
+		w[0] = c
 	case 0: // equal
 		x := uint32(1 + r.Intn(5))
 		for i := range w {
@@ -419,6 +499,22 @@ func WeightShapes(r *rand.Rand, n int, shape int) []uint32 {
 	return w
 }
 
+// spread distributes total over w[1:] (each at least 1; the remainder goes to random positions)
+func spread(r *rand.Rand, w []uint32, total uint32, _ int) {
+	n := len(w) - 1
+	if n <= 0 {
+		return
+	}
+	for i := 1; i <= n; i++ {
+		w[i] = 1
+	}
+	left := int64(total) - int64(n)
+	for left > 0 {
+		w[1+r.Intn(n)]++
+		left--
+	}
+}
+
 // PickCheaters returns a random validator subset with 3*weight < total (possibly empty).
 func PickCheaters(r *rand.Rand, ws []uint32, want int) []bool {
 	total := uint64(0)
@@ -454,6 +550,16 @@ func Generate(r *rand.Rand, s *Scn, cfg GenCfg) {
 		for k := 0; k < cfg.Lag[v]; k++ {
 			act = append(act, v)
 		}
+	}
+	for v := 0; v < nv; v++ {
+		if cfg.Lag[v] == 0 {
+			Stat("gen_validator_never_emits")
+		}
+	}
+	if nv > 64 {
+		Stat("gen_more_than_64_validators")
+	} else if nv > 32 {
+		Stat("gen_more_than_32_validators")
 	}
 	next := 0
 	curEp := uint32(1)
@@ -527,6 +633,9 @@ func Generate(r *rand.Rand, s *Scn, cfg GenCfg) {
 		}
 		if ev.Seq > 1 && len(ev.Parents) == 0 {
 			continue
+		}
+		if len(ev.Parents) >= nv && nv > 1 {
+			Stat("gen_event_with_all_validators_as_parents")
 		}
 		e := EventOf(s, ev, ids, curEp)
 		if e == nil {
@@ -636,9 +745,18 @@ func safeProcess(in *Inst, e *tdag.TestEvent) (code int, crashed bool) {
 // RandomScenario draws weights, validator ids, cheaters and generator settings.
 func RandomScenario(r *rand.Rand, maxEvents int, probes bool) (*Scn, GenCfg, string) {
 	nv := 1 + r.Intn(9)
-	shape := r.Intn(7)
+	shape := r.Intn(9)
 	s := &Scn{Salt: r.Uint64() >> 1}
-	tie := r.Intn(3) == 0
+	fam := r.Intn(24)
+	tie := fam < 8
+	many := fam == 8                // more than 32 / 64 validators
+	chain := fam == 9              // one emitting validator: one frame per event, hundreds of frames
+	if many {
+		nv = []int{33, 40, 65, 70}[r.Intn(4)]
+		if maxEvents >= 400 && r.Intn(3) == 0 {
+			nv = 130
+		}
+	}
 	if tie {
 		// measured with the mutant "tie counts as no": equal weights on 4 / 5 / 6 validators change
 		// the outcome in ~15% / 10% / 2% of the runs, unequal weights practically never
@@ -653,9 +771,28 @@ func RandomScenario(r *rand.Rand, maxEvents int, probes bool) (*Scn, GenCfg, str
 			tw = []uint32{x, x, x, x, x, x}
 		}
 		nv = len(tw)
-		shape = 7
+		shape = 11
 		s.Ws = append([]uint32{}, tw...)
 		r.Shuffle(nv, func(i, j int) { s.Ws[i], s.Ws[j] = s.Ws[j], s.Ws[i] })
+	} else if many {
+		// three heavy validators hold more than 2/3 together, all others weight 1 (or a few 2)
+		shape = 9
+		s.Ws = make([]uint32, nv)
+		for i := range s.Ws {
+			s.Ws[i] = 1 + uint32(r.Intn(8)/7)
+		}
+		for i := 0; i < 3; i++ {
+			s.Ws[i] = uint32(nv)
+		}
+		r.Shuffle(nv, func(i, j int) { s.Ws[i], s.Ws[j] = s.Ws[j], s.Ws[i] })
+	} else if chain {
+		shape = 10
+		if r.Intn(2) == 0 {
+			nv = 1
+			s.Ws = []uint32{uint32(1 + r.Intn(1000))}
+		} else {
+			s.Ws = WeightShapes(r, nv, 6) // one validator >= 2/3
+		}
 	} else {
 		s.Ws = WeightShapes(r, nv, shape)
 	}
@@ -722,6 +859,7 @@ func RandomScenario(r *rand.Rand, maxEvents int, probes bool) (*Scn, GenCfg, str
 		// everybody, one or two slow validators (their roots are seen by only part of the next
 		// frame's roots), no cheaters in most runs
 		kind = "tie"
+		shape = 11
 		for i := range cfg.Lag {
 			cfg.Lag[i] = 3
 		}
@@ -739,10 +877,69 @@ func RandomScenario(r *rand.Rand, maxEvents int, probes bool) (*Scn, GenCfg, str
 			cfg.NEvents = maxEvents
 		}
 	}
+	if shape == 8 && nv > 1 {
+		// the designated validator forks: it holds exactly one unit less than a third
+		cfg.Cheat = make([]bool, nv)
+		cfg.Cheat[0] = true
+		kind += "_forker_third_minus_unit"
+	}
+	if many {
+		kind = "many"
+		cfg.MaxPar = 3 + r.Intn(6)
+		if r.Intn(4) == 0 {
+			cfg.MaxPar = nv
+		}
+		cfg.PartUntil = 0
+		for i := range cfg.Lag {
+			cfg.Lag[i] = r.Intn(3) // light validators: silent, slow or normal
+			if s.Ws[i] >= uint32(nv) {
+				cfg.Lag[i] = 30
+			}
+		}
+		cfg.Cheat = make([]bool, nv)
+		for k := 0; k < 3; k++ { // light cheaters, also at high validator indices
+			c := r.Intn(nv)
+			if s.Ws[c] < uint32(nv) {
+				cfg.Cheat[c] = true
+				if cfg.Lag[c] == 0 {
+					cfg.Lag[c] = 2
+				}
+			}
+		}
+		cfg.NEvents = maxEvents - maxEvents/7
+	}
+	if chain {
+		kind = "chain"
+		// only the heaviest validator emits
+		hv := 0
+		for i := range s.Ws {
+			if s.Ws[i] > s.Ws[hv] {
+				hv = i
+			}
+		}
+		for i := range cfg.Lag {
+			cfg.Lag[i] = 0
+		}
+		cfg.Lag[hv] = 1
+		cfg.Cheat = make([]bool, nv)
+		cfg.PartUntil = 0
+		cfg.NEvents = maxEvents + maxEvents/3 + maxEvents/50
+	}
 	cfg.ForkP = []float64{0.05, 0.15, 0.4}[r.Intn(3)]
+	if many {
+		cfg.ForkP = 0.4
+	}
 	if r.Intn(3) == 0 {
 		cfg.LowerP = 0.1
 	}
+	// ApplyEvent: installed for every block / nil for the first k blocks / never
+	if r.Intn(2) == 0 {
+		s.ApplyFrom = []int{1, 2, 3, 5, 9}[r.Intn(5)]
+	}
+	// caches of abft.Store and vecfc.Index: lite / all 0 / all 1 / default
+	s.CfgV = []int{0, 0, 1, 2, 3}[r.Intn(5)]
+	Stat("cfg_caches_" + []string{"lite", "zero", "one", "default"}[s.CfgV])
+	Stat("cfg_applyevent_from_" + strconv.Itoa(s.ApplyFrom))
 	if r.Intn(4) == 0 {
 		// the application seals every epoch at frame 1, 2, 3 or 5; up to three epochs
 		s.Seal = []uint32{1, 2, 3, 5}[r.Intn(4)]
